@@ -7,6 +7,7 @@ require (
 	github.com/coder/websocket v1.8.12
 	github.com/jonboulle/clockwork v0.4.0
 	github.com/rs/zerolog v1.33.0
+	google.golang.org/genproto/googleapis/rpc v0.0.0-20240827150818-7e3bb234dfed
 	google.golang.org/grpc v1.66.0
 	google.golang.org/protobuf v1.34.2
 )
@@ -19,7 +20,6 @@ require (
 	golang.org/x/sync v0.8.0 // indirect
 	golang.org/x/sys v0.24.0 // indirect
 	golang.org/x/text v0.17.0 // indirect
-	google.golang.org/genproto/googleapis/rpc v0.0.0-20240827150818-7e3bb234dfed // indirect
 )
 
 replace github.com/avos-io/goat => /repo
